@@ -802,6 +802,56 @@ def judge_arco(inp, obs, lr):
     return None
 
 
+# ------------------------------------------------------------------------------------------------
+# circle_angles: the angle as a (cos, sin) pair
+# ------------------------------------------------------------------------------------------------
+def gen_cang(rng, n):
+    for _ in range(n):
+        shape = rng.choice(SHAPES)
+        k = rng.randint(1, 3)
+        centers, pts = [], []
+        for _ in range(cnt(shape)):
+            c = [Q.rq(rng, 9, 4), Q.rq(rng, 9, 4)]
+            ps = []
+            for _ in range(k):
+                co, si = Q.rrot(rng)
+                if rng.random() < 0.2:
+                    co, si = rng.choice([(F(1), F(0)), (F(-1), F(0)), (F(0), F(1)), (F(0), F(-1))])
+                rho = F(rng.randint(1, 12), rng.randint(1, 5))
+                ps.append([c[0] + rho * co, c[1] + rho * si])
+            centers.append(L.encV(c))
+            pts.append(L.encM(ps))
+        yield {"shape": shape, "k": k, "centers": centers, "pts": pts}
+
+
+def run_cang(inp):
+    c = np.array([Q.decf(x) for x in inp["centers"]]).reshape(tuple(inp["shape"]) + (2,))
+    P = np.array([Q.decf(x) for x in inp["pts"]]).reshape(tuple(inp["shape"]) + (inp["k"], 2))
+    th = np.asarray(utils.circle_angles(c, P), dtype=float)
+    return {"shape": list(th.shape), "theta": L.units(th, 1).tolist()}
+
+
+def lean_cang(inp, obs):
+    return [{"op": "c18.circle_angle", "center": c, "p": p} for c, ps in zip(inp["centers"], inp["pts"]) for p in ps]
+
+
+def judge_cang(inp, obs, lr):
+    tags = {"fn": "circle_angles", "composite": bool(inp["shape"])}
+    if "exc" in obs:
+        return {"expected": "angles", "observed": obs, "tags": dict(tags, exc=obs["exc"]), "property_failure": True}
+    if obs["shape"] != inp["shape"] + [inp["k"]]:
+        return {"expected": inp["shape"] + [inp["k"]], "observed": obs["shape"], "tags": dict(tags, shape=True), "property_failure": True}
+    flat = [t for row in obs["theta"] for t in row]
+    for res, t in zip(lr, flat):
+        if "err" in res:
+            return {"expected": "model answer", "observed": res, "tags": dict(tags, driver_err=res["err"])}
+        c, s_ = (float(F(x)) for x in res["ok"])
+        if not (-PI - 1e-12 <= t <= PI + 1e-12 and abs(math.cos(t) - c) <= 1e-9 and abs(math.sin(t) - s_) <= 1e-9):
+            return {"expected": {"cos": c, "sin": s_, "range": "[-π, π]"}, "observed": {"theta": t, "cos": math.cos(t), "sin": math.sin(t)},
+                    "tags": tags, "property_failure": not (-PI - 1e-12 <= t <= PI + 1e-12)}
+    return None
+
+
 CLAUSES = [
     Clause("gs_corr", "corr", gen_gs, run_gs, judge_gs, lean=lean_gs, site="utils.indefinite_orthogonalize",
            budget={"quick": 240, "thorough": 4000},
@@ -824,6 +874,9 @@ CLAUSES = [
     Clause("arcs_corr", "corr", gen_arcs, run_arcs, judge_arcs, lean=lean_arcs, site="utils.short_arc / right_to_left / arc_include",
            budget={"quick": 300, "thorough": 5000},
            what="angle pairs on the stated ranges incl. unit shape and batches vs the Lean model over ℚ (π = the double np.pi)"),
+    Clause("circle_angles_corr", "corr", gen_cang, run_cang, judge_cang, lean=lean_cang, site="utils.circle_angles",
+           budget={"quick": 80, "thorough": 2000},
+           what="rational centres and points at rational distance (incl. the four axis directions), batches: (cos θ, sin θ) of the returned angle vs the exact unit vector of the Lean model; θ ∈ [−π, π]"),
     Clause("gs_oracle", "oracle", gen_gso, run_gso, judge_gso, site="utils.indefinite_orthogonalize / find_isometry",
            budget={"quick": 500, "thorough": 8000},
            what="float forms of every signature p+q ≤ 6, well-conditioned rows, batches: orthogonality, norms ±1, flag of spans, signature, det > 0 on request"),
